@@ -81,4 +81,21 @@ let () =
         | Some (_, _) -> "model-rest"
         | None -> "model-none" in
       Printf.printf "SRC %s TREE %s STRIP %s MODEL %s\n" (hex src) (sx_of e') (sx_of (strip e')) m
+    end
+    else if String.length line > 4 && String.sub line 0 4 = "mut " then begin
+      (* every single-token deletion, duplication and adjacent swap of the rendered tree: does the model parser accept? *)
+      let e = add_parens (expr_of (parse_sx (String.sub line 4 (String.length line - 4)))) in
+      let toks = Array.of_list (render e) in
+      let n = Array.length toks in
+      let emit l =
+        let src = String.concat " " (List.map tok_text l) in
+        let ok = match parse_expr (l @ [KRP]) with Some (_, [KRP]) -> "accept" | _ -> "reject" in
+        Printf.printf "MUT %s %s\n" (hex src) ok in
+      for i = 0 to n - 1 do
+        let l = Array.to_list toks in
+        emit (List.filteri (fun j _ -> j <> i) l);
+        emit (List.concat (List.mapi (fun j t -> if j = i then [t; t] else [t]) l));
+        if i + 1 < n then emit (List.mapi (fun j t -> if j = i then toks.(i + 1) else if j = i + 1 then toks.(i) else t) l)
+      done;
+      print_endline "END"
     end) ic
